@@ -15,13 +15,16 @@ RP = 'cl03::range_proof::Boudot2000RangeProof::'
 SP = 'cl03::sigma_protocols::'
 
 # ---------------------------------------------------------------------------------- C13
+# the interval (2^(le-1), 2^le) written with order comparisons against its ends, or by the bit length: a primitive equality of a machine integer
+# computed from e (its number of significant bits) with le that must hold - both ends at once (e = 2^(le-1) aside)
+E_BITLEN_ALTS = [{}, {'gate_callee': [], 'gate_op': ['Eq'], 'truth': True, 'min_gates': 1}]
 C13_REQS = [
     (SIGI + 'verify', [
         {'id': 'equation', 'what': 'v^e == a^m * b^s * c (mod N) gates acceptance and depends on v, e, s, the base, the attribute, b, c, N',
          'gate_callee': ['PartialEq'], 'cover': ['self.v', 'self.e', 'self.s', 'a_bases', 'message', 'pk.b', 'pk.c', 'pk.N']},
-        {'id': 'e-lower', 'what': 'e > 2^(le-1) gates acceptance', 'gate_callee': ['PartialOrd'], 'cover': ['self.e', 'a:le'], 'pure': ['self.e']},
+        {'id': 'e-lower', 'what': 'e > 2^(le-1) gates acceptance', 'gate_callee': ['PartialOrd'], 'cover': ['self.e', 'a:le'], 'pure': ['self.e'], 'alts': E_BITLEN_ALTS},
         {'id': 'e-range', 'what': 'e is compared with both ends of its range (2^(le-1) < e < 2^le): two order comparisons of e with powers of 2^le', 'gate_callee': ['PartialOrd'],
-         'cover': ['self.e', 'a:le'], 'pure': ['self.e'], 'min_gates': 2},
+         'cover': ['self.e', 'a:le'], 'pure': ['self.e'], 'min_gates': 2, 'alts': E_BITLEN_ALTS},
         {'id': 'attribute-range', 'what': 'the attribute is compared with 2^lm before acceptance (0 <= m < 2^lm)',
          'gate_callee': ['PartialOrd', 'Ord::cmp', 'Iterator::any', 'Iterator::all', 'significant_bits'], 'gate_op': ['Lt', 'Le', 'Gt', 'Ge'],
          'quantifier': 'forall', 'cover': ['message', 'a:lm'], 'pure': ['message']},
@@ -29,9 +32,9 @@ C13_REQS = [
     (SIGI + 'verify_multiattr', [
         {'id': 'equation', 'what': 'v^e == prod a_i^m_i * b^s * c (mod N) gates acceptance',
          'gate_callee': ['PartialEq'], 'cover': ['self.v', 'self.e', 'self.s', 'a_bases', 'messages', 'pk.b', 'pk.c', 'pk.N']},
-        {'id': 'e-lower', 'what': 'e > 2^(le-1) gates acceptance', 'gate_callee': ['PartialOrd'], 'cover': ['self.e', 'a:le'], 'pure': ['self.e']},
+        {'id': 'e-lower', 'what': 'e > 2^(le-1) gates acceptance', 'gate_callee': ['PartialOrd'], 'cover': ['self.e', 'a:le'], 'pure': ['self.e'], 'alts': E_BITLEN_ALTS},
         {'id': 'e-range', 'what': 'e is compared with both ends of its range (2^(le-1) < e < 2^le), as in the single-attribute verifier', 'gate_callee': ['PartialOrd'],
-         'cover': ['self.e', 'a:le'], 'pure': ['self.e'], 'min_gates': 2},
+         'cover': ['self.e', 'a:le'], 'pure': ['self.e'], 'min_gates': 2, 'alts': E_BITLEN_ALTS},
         {'id': 'attribute-count', 'what': 'the number of attributes is compared for equality with the number of bases the signature was issued over (a^0 = 1: otherwise a signature on '
                                           '[m, 0] also verifies for [m] and for [m, 0, 0])', 'gate_op': ['Eq', 'Ne'], 'cover': ['len(messages)', 'len(a_bases)']},
         {'id': 'attribute-range', 'what': 'every attribute is compared with 2^lm before acceptance',
@@ -84,7 +87,14 @@ def rule_e_loop_exit(ctx, cfg='prod-all'):
                     if t['k'] != 'switch':
                         continue
                     g = classify_switch(eng, lfd, x)
-                    subs = ga._flatten(g)
+                    subs = []
+                    for g2 in ga._flatten(g):
+                        if g2.kind == 'deleg' and g2.callee in prog.bodies:
+                            # a local predicate (`has_exponent_length(&e, le)`): the tests its verdict rests on
+                            for alt in ga._lift_paths(lfd, g2.callee, g2.args, True, (lb.path,), want=True, targs=g2.targs) or []:
+                                subs.extend(alt)
+                        else:
+                            subs.append(g2)
                     for g2 in subs:
                         w = g2.what or ''
                         atoms = fr.lift(g2.all_atoms())
@@ -93,6 +103,8 @@ def rule_e_loop_exit(ctx, cfg='prod-all'):
                             found['gt'] = True
                         if ('PartialOrd::lt' in w or 'PartialOrd::le' in w) and 'le' in names:
                             found['lt'] = True
+                        if g2.kind == 'cmp' and g2.what == 'Eq' and g2.truth is True and 'le' in names:
+                            found['gt'] = found['lt'] = True      # the bit length of e equals le: both ends
                         if any(n.startswith('sk.p') for n in names) and any(n.startswith('sk.q') for n in names):
                             found['gcd'] = True
         # provenance of e at the signature aggregate
@@ -523,14 +535,17 @@ def rule_remainder_bound(ctx, cfg='prod-all'):
     larger-interval sub-proofs: it is computed from a square root."""
     prog, za, eng = ctx.prog(cfg), ctx.zone(cfg), ctx.eng(cfg)
     n = 0
+    fns_seen = set()
     for fn in (RP + 'proof_of_tolerance_specific', RP + 'verify_of_tolerance_specific'):
         b = prog.bodies.get(fn)
         if b is None:
             raise AnchorMissing(fn)
-        za.summary(fn)
-        zf = za.zf(fn)
         k = 0
-        for bi, t in b.calls():
+        sites = []
+        for bb in [b] + list(prog.closures_of(fn)):
+            za.summary(bb.path)
+            sites += [(za.zf(bb.path), bi, t) for bi, t in bb.calls()]
+        for zf, bi, t in sites:
             tgt = local_target(eng, t) or ''
             if not tgt.endswith('large_interval_specific'):
                 continue
@@ -540,11 +555,13 @@ def rule_remainder_bound(ctx, cfg='prod-all'):
             sh = _expr_shape(zf, t['args'][kb - 1])
             k += 1
             n += 1
+            fns_seen.add(fn)
             ok = sh is not None and 'sqrt' in str(sh)
             yield Ob('RF-Q', '%s#remainder-bound[%d]' % (fn, k), ok,
                      'the bound of the larger-interval sub-proof is the bound of the remainder of the square decomposition (computed from a square root of the width), not the end of the range',
                      '%s L%s' % (b.file(), t.get('line')), fact={'bound_expression': str(sh)}, expected='an expression over sqrt(b - a)')
-    yield Ob('RF-Q', 'cl03#remainder-bounds', n >= 4, 'larger-interval sub-proof calls examined', '', fact=n, expected='>= 4', nontrivial=False)
+    yield Ob('RF-Q', 'cl03#remainder-bounds', len(fns_seen) == 2, 'larger-interval sub-proof calls examined in the prover and in the verifier', '',
+             fact={'calls': n, 'functions': len(fns_seen)}, expected='both functions', nontrivial=False)
 
 
 def _eval_shape(sh, env):
@@ -661,6 +678,10 @@ FS_ARMED = (SP + 'NISPSignaturePoK::nisp5_MultiAttr_verify_proof', SP + 'NISP2Co
             RP + 'verify_same_secret', RP + 'verify_large_interval_specific')
 
 
+# calls by which a helper turns the values it is given into the text / octets that are hashed
+TEXT_CALLS = ('ToString::to_string', 'fmt::Write::write_fmt', 'fmt::format', '::to_string_radix', '::to_digits', 'fmt::Display::fmt', '::write_digits')
+
+
 def rule_statement_in_challenge(ctx, cfg='prod-all', rule='RF-C', skip=(), only=None):
     """Fiat-Shamir: the challenge has to be a hash of the statement (bases, public keys, commitments) together with the prover's first
     message; a challenge computed from the recomputed first message alone does not bind the proof to the statement it is checked against - the
@@ -696,7 +717,7 @@ def rule_statement_in_challenge(ctx, cfg='prod-all', rule='RF-C', skip=(), only=
             tgt = local_target(eng, t)
             if tgt is None or tgt not in prog.bodies or tgt == fn:
                 continue
-            texts = any((t2.get('callee') or '').endswith('ToString::to_string') for bb in [prog.bodies[tgt]] + list(prog.closures_of(tgt)) for _bi, t2 in bb.calls())
+            texts = any((t2.get('callee') or '').endswith(TEXT_CALLS) for bb in [prog.bodies[tgt]] + list(prog.closures_of(tgt)) for _bi, t2 in bb.calls())
             if not texts:
                 continue
             for a in t['args']:
@@ -1099,6 +1120,44 @@ def _cursors(zf):
     return out
 
 
+def _only_compared(b, zf, l):
+    """the value held in local l (the Option a `get` returned) is only handed to equality comparisons (through copies and borrows)"""
+    seen, st, cmp_seen = set(), [l], False
+    while st:
+        x = st.pop()
+        if x in seen:
+            continue
+        seen.add(x)
+        for bi, blk in enumerate(b.blocks):
+            if blk['cleanup']:
+                continue
+            for s in blk['stmts']:
+                if s['k'] != 'assign':
+                    continue
+                rv = s['rv']
+                src = rv.get('pl') if rv['k'] in ('ref',) else (rv.get('op') or {}).get('pl') if rv['k'] in ('use', 'cast') else None
+                if src is not None and src['l'] == x:
+                    if src.get('p') and any(q['k'] != 'deref' for q in src['p']):
+                        return False      # the payload is taken out
+                    if s['dst'].get('p'):
+                        return False
+                    st.append(s['dst']['l'])
+                elif rv['k'] in ('discr', 'binop', 'agg') and any(isinstance(o, dict) and o.get('k') in ('copy', 'move') and o['pl']['l'] == x
+                                                                 for o in [rv.get('a'), rv.get('b'), {'k': 'copy', 'pl': rv.get('pl')} if rv.get('pl') else None] + list(rv.get('ops') or [])):
+                    return False
+            t = blk['term']
+            if t['k'] == 'call':
+                for a in t['args']:
+                    if a['k'] in ('copy', 'move') and a['pl']['l'] == x:
+                        if (t.get('callee') or '') in ('std::cmp::PartialEq::eq', 'std::cmp::PartialEq::ne'):
+                            cmp_seen = True
+                        else:
+                            return False
+            elif t['k'] == 'switch' and t['discr']['k'] in ('copy', 'move') and t['discr']['pl']['l'] == x:
+                return False
+    return cmp_seen
+
+
 def rule_cursor_discipline(ctx, cfg='prod-all', scope=('cl03::',)):
     """a manually advanced cursor into a list (idx += 1) must be advanced on every path from the element it selects to the next
     iteration: otherwise later positions re-read the same element (or skip one)."""
@@ -1116,6 +1175,7 @@ def rule_cursor_discipline(ctx, cfg='prod-all', scope=('cl03::',)):
         for c, incs in cur.items():
             # blocks that use c (or a copy of it) as an index / key
             uses = set()
+            peeks = 0
             copies = {c}
             for bi, s in b.stmts():
                 if s['k'] == 'assign' and s['rv']['k'] == 'use' and s['rv']['op']['k'] in ('copy', 'move') and s['rv']['op']['pl']['l'] in copies \
@@ -1138,7 +1198,11 @@ def rule_cursor_discipline(ctx, cfg='prod-all', scope=('cl03::',)):
                                                                   'std::vec::Vec::<T, A>::get', 'core::slice::<impl [T]>::get_mut') and len(t['args']) == 2:
                     a1 = t['args'][1]
                     if a1['k'] in ('copy', 'move') and a1['pl']['l'] in copies:
+                        if (t.get('callee') or '').endswith('::get') and _only_compared(b, zf, t['dst']['l']):
+                            peeks += 1      # `list.get(idx) == Some(&i)`: a look at the next element that decides whether to take it, not a read that consumes it
+                            continue
                         uses.add(bi)
+            n += peeks
             for u in sorted(uses):
                 for h, blocks in loops:
                     if u not in blocks:
@@ -1173,7 +1237,7 @@ def rule_cursor_discipline(ctx, cfg='prod-all', scope=('cl03::',)):
 def rule_checks_not_skippable_by_artefact(ctx, cfg='prod-all'):
     """whether a sub-verifier runs may depend on the issuer's / verifier's own inputs, never on fields of the untrusted proof: a proof
     must not be able to switch a check off by omitting the component the check is about."""
-    prog, eng, ga = ctx.prog(cfg), ctx.eng(cfg), ctx.gates(cfg)
+    prog, eng, ga, za = ctx.prog(cfg), ctx.eng(cfg), ctx.gates(cfg), ctx.zone(cfg)
     specs = [(ZKI + 'verify_proof', ['nisp2_verify_proof_MultiSecrets', 'nispMultiSecrets_verify_proof', 'nisp2sec_verify_proof', 'Boudot2000RangeProof::verify']),
              (POKI + 'proof_verify', ['nisp5_MultiAttr_verify_proof', 'nisp2sec_verify_proof', 'Boudot2000RangeProof::verify'])]
     for suffix, callees in specs:
@@ -1204,6 +1268,8 @@ def rule_checks_not_skippable_by_artefact(ctx, cfg='prod-all'):
                             continue
                         ats = f.lift(g.all_atoms())
                         if any(strip(a)[0] == 'p' and strip(a)[1] == kself for a in ats):
+                            if _trip_count_is_trusted(za, f, g, kself) or _presence_tied(ga, f, at, g, kself):
+                                continue
                             bad.append(g.describe())
                     if f.parent is None:
                         break
@@ -1216,6 +1282,71 @@ def rule_checks_not_skippable_by_artefact(ctx, cfg='prod-all'):
                          fact={'proof_dependent_conditions': bad[:4], 'called_in': fr.path.split('::')[-1]}, expected='none')
         if n == 0:
             yield Ob('RF-D', '%s#unskippable:none' % b.path, False, 'expected sub-verifier calls', b.span, fact=0, expected='>= 1')
+
+
+def _is_proof_atom(f, a, kself):
+    return any(strip(x)[0] == 'p' and strip(x)[1] == kself for x in f.lift({a}))
+
+
+def _trip_count_is_trusted(za, f, g, kself):
+    """the condition is the `next()` of a loop over lists zipped together, and the number of rounds is the length of a list that does not come
+    from the proof (the proof's lists are at least as long there: their lengths were compared before)"""
+    if g.kind != 'call' or not (g.what or '').endswith('Iterator::next') or not g.args or g.fn != f.path:
+        return False
+    za.summary(f.path)
+    zf = za.zf(f.path)
+    ln = zf.iter_len(g.args[0])
+    if ln is None or ln[0] is None or not ln[0].startswith('len:'):
+        return False
+    name = ln[0][4:].split('.')
+    b = f.body
+    k = b.param_index(name[0])
+    if k is None and name[0].startswith('_') and name[0][1:].isdigit():
+        k = int(name[0][1:])
+    if k is None:
+        ls = [l for l in range(len(b.locals)) if b.local_name(l) == name[0]]
+        k = ls[0] if len(ls) == 1 else None
+    if k is None:
+        return False
+    ats = f.fd.read(f.fd.base(k)[0], tuple(f.fd.base(k)[1]) + tuple(name[1:]))
+    return not any(_is_proof_atom(f, a, kself) for a in ats)
+
+
+def _presence_tied(ga, f, at, g, kself):
+    """a match on whether an optional part of the proof is present, where a comparison every path passes has already refused unless that
+    presence equals the presence of an input that is not part of the proof (`if trusted.is_some() != proof.part.is_some() { return false }`):
+    the proof does not choose the branch"""
+    if g.kind not in ('match', 'call'):
+        return False
+    if g.kind == 'call' and not (g.what or '').endswith(('::is_some', '::is_none')):
+        return False
+    fb, ffd = f.body, f.fd
+    mine = [a for a in g.all_atoms() if _is_proof_atom(f, a, kself)]
+    ties = []
+    for g2 in ga.block_gates(ffd, at):
+        if g2.kind != 'cmp' or g2.dom is not True or len(g2.operands) != 2 or g2.edge is None:
+            continue
+        if not ((g2.what == 'Ne' and g2.truth is False) or (g2.what == 'Eq' and g2.truth is True)):
+            continue
+        t = fb.blocks[g2.edge[0]]['term']
+        # both sides booleans (presence flags)
+        okb = False
+        if t['k'] == 'switch' and t['discr']['k'] in ('copy', 'move'):
+            ds = [d for d in ffd.defs.get(t['discr']['pl']['l'], []) if d[0] == 'assign' and d[2]['rv']['k'] == 'binop']
+            for d in ds:
+                rv = d[2]['rv']
+                okb = okb or all(o['k'] in ('copy', 'move') and fb.local_ty(o['pl']['l']) == 'bool' for o in (rv['a'], rv['b']))
+        # (a condition that is one operand of a short-circuit chain has its own switch)
+        if not okb:
+            continue
+        o1, o2 = g2.operands
+        for x, y in ((o1, o2), (o2, o1)):
+            if x and y and not any(_is_proof_atom(f, a, kself) for a in y):
+                ties.append(set(x))
+    if not mine or not ties:
+        return False
+    from dep import covers
+    return all(any(covers(tie, strip(a)) for tie in ties) for a in mine)
 
 
 def _reaches_accept(b, fd, start):
